@@ -11,6 +11,7 @@ import (
 	"path/filepath"
 	"sync"
 	"sync/atomic"
+	"syscall"
 	"time"
 )
 
@@ -51,6 +52,9 @@ type Proc struct {
 	Cwd       string   `json:"cwd"`
 	Ops       []Op     `json:"ops"`
 	LogEvents bool     `json:"log_events,omitempty"`
+	// TmpOtherFS: the process's temporary directory ($TMPDIR) lies on another file system than its
+	// working directory (an environment fault: renames across the two fail with EXDEV)
+	TmpOtherFS bool `json:"tmp_other_fs,omitempty"`
 }
 
 type Record struct {
@@ -89,13 +93,14 @@ func (r *ProcResult) Completed(i int) bool { return i < len(r.Records) }
 
 // Stats are cumulative counters of the simulator (atomic: workers share them).
 type Stats struct {
-	Procs     int64
-	Ops       int64
-	Events    int64
-	NonCanon  int64
-	Timeouts  int64
-	Crashes   int64
-	ProcWallN int64 // nanoseconds
+	Procs      int64
+	Ops        int64
+	Events     int64
+	NonCanon   int64
+	Timeouts   int64
+	Crashes    int64
+	ProcWallN  int64 // nanoseconds
+	TmpOtherFS int64 // processes that really ran with $TMPDIR on another file system
 
 	mu      sync.Mutex
 	PerSite map[string]int64 // iteration events per rewritten site
@@ -137,6 +142,15 @@ func (e *Env) RunProc(p *Proc, workDir string, timeout time.Duration, st *Stats,
 		gomaxprocs = 1
 	}
 	cmd.Env = append(os.Environ(), fmt.Sprintf("GOMAXPROCS=%d", gomaxprocs), "GOTRACEBACK=single")
+	if p.TmpOtherFS {
+		if d := otherFSTemp(workDir); d != "" {
+			defer os.RemoveAll(d)
+			cmd.Env = append(cmd.Env, "TMPDIR="+d)
+			if st != nil {
+				atomic.AddInt64(&st.TmpOtherFS, 1)
+			}
+		}
+	}
 	var stderr bytes.Buffer
 	cmd.Stderr = &limitedWriter{w: &stderr, n: 16 << 10}
 	cmd.Stdout = nil
@@ -227,6 +241,23 @@ func (e *Env) RunProc(p *Proc, workDir string, timeout time.Duration, st *Stats,
 		}
 	}
 	return res, nil
+}
+
+// otherFSTemp creates a temporary directory on a file system other than workDir's (tmpfs under
+// /dev/shm in this sandbox); "" if none is available - the fault is then not injected.
+func otherFSTemp(workDir string) string {
+	var a, b syscall.Stat_t
+	if syscall.Stat(workDir, &a) != nil {
+		return ""
+	}
+	for _, base := range []string{"/dev/shm", "/run/shm"} {
+		if syscall.Stat(base, &b) == nil && a.Dev != b.Dev {
+			if d, err := os.MkdirTemp(base, "vsim-tmp-"); err == nil {
+				return d
+			}
+		}
+	}
+	return ""
 }
 
 type limitedWriter struct {
